@@ -466,6 +466,19 @@ func (g *progGen) forStmt(depth int) *tw.Stmt {
 		}
 	}
 	st := &tw.Stmt{Kind: tw.SFor, Name: name, Init: intLit(int64(a)), Cond: tw.Bin(op, tw.Var(name), intLit(int64(b))), Post: tw.Un(post, tw.Var(name))}
+	if op != "!=" && rapid.IntRange(0, 3).Draw(g.rt, "assignPost") == 0 {
+		// the post clause written as an assignment, stepping by 1..3
+		step := int64(rapid.IntRange(1, 3).Draw(g.rt, "step"))
+		bop := "+"
+		if post == tw.EDec {
+			bop = "-"
+		}
+		st.PostName, st.Post = name, tw.Bin(bop, tw.Var(name), intLit(step))
+		if rapid.Bool().Draw(g.rt, "plainStep") {
+			st.PostName = "" // "i + 2": the value of the post clause becomes the variable
+		}
+		g.Feat["for-step"]++
+	}
 	g.push()
 	g.bind(name, refint.KInt)
 	g.loopDepth++
